@@ -5,16 +5,23 @@
   data flow of every public entry point that reaches an in-place operator).  They are law-free, so
   they hold verbatim for the definitions the driver executes.
 
-  * `safe_sound`              — generic: ANY program accepted by the ownership analysis, run on ANY heap,
-                                 leaves every pre-existing buffer unwritten and unchanged.
-  * `all_entry_points_safe`   — the analysis accepts every modelled entry point in every configuration.
-  * `no_caller_write`         — hence: for every entry point, configuration and heap (arbitrary caller
-                                 arrays with arbitrary mutual aliasing, arbitrary stored fields) nothing that
-                                 existed before the call is written.
-  * `store_new_name_keeps_old`— storing under a name never rebinds or changes what other names hold.
-  * `history_no_write`        — the same along arbitrary sequences of calls with re-bound arguments.
-  * `*_old_*`                 — the data flow the code had before the repairs D2, D3 and 7b774f4 is
-                                 rejected by the analysis AND really writes a caller buffer (witnesses).
+  * `safe_sound`               — generic: ANY straight-line program accepted by the ownership analysis, run on ANY heap,
+                                  leaves every pre-existing buffer unwritten and unchanged.
+  * `structured_safe_sound(_params)` — the same for programs with branches and loops (every execution); this is the
+                                  form the static scan applies to the data flow it extracts from the python source.
+  * `all_entry_points_safe`    — the analysis accepts every modelled entry point in every configuration.
+  * `no_caller_write`, `caller_object_unchanged`, `reachable_unchanged`, `outputs_well_formed`
+                               — hence: for every entry point, configuration and heap (arbitrary caller arrays with
+                                  arbitrary mutual aliasing, arbitrary stored fields) nothing that existed / was reachable
+                                  before the call is written; what comes out references existing buffers only.
+  * `store_new_name_keeps_old`, `restore_keeps_old_array`, `new_name_does_not_touch_field`,
+    `transform_new_name_keeps_field` — storing under a name never rebinds or changes what other names hold.
+  * `history_no_write`, `earlier_results_survive` — the same along arbitrary sequences of calls with re-bound arguments.
+  * `fieldCall_aliases_without_writing` — non-vacuity: outputs really alias inputs in the model, and in-place
+                                  arithmetic really happens (in owned memory).
+  * `*_old_*`                  — the data flow the code had before the repairs (D2 84a0bfc, D3 da1c68c, axis mask 7b774f4,
+                                  anis 9340584) is rejected by the analysis AND really writes a caller buffer (witnesses);
+                                  `fieldCall_old_harmless_without_alias`: it was harmless exactly when aliasing was impossible.
 -/
 import GSV.Lemmas.Heap
 namespace GSV.Props.C20
